@@ -70,7 +70,7 @@ ALL = ["C%02d" % i for i in range(1, 20)]
 
 def main():
     hooks_commits = subprocess.run(["git", "-C", "/repo", "log", "--format=%H %s"], capture_output=True, text=True).stdout.splitlines()
-    src = [l.split()[0] for l in hooks_commits if " verif hooks:" in l]
+    src = [l.split()[0] for l in hooks_commits if " verif hooks:" in l or " verif_hooks:" in l]
     checks = []
     na = []
     for pid in ALL:
